@@ -52,7 +52,9 @@ func RunCodec(t *testing.T, p *plan.Plan, keepLog int) *Result {
 			check := func(l live) {
 				for _, compression := range []bool{false, true} {
 					want := l.m.Len()
-					buf := make([]byte, want+16)
+					// a buffer of exactly the advertised length, as every caller
+					// in the proxy allocates it
+					buf := make([]byte, want)
 					n, err := l.m.Pack(buf, compression, 0)
 					name := fmt.Sprintf("message %d (shape %s, compression %v)", l.it.Idx, l.it.Ans.Shape, compression)
 					if err != nil {
